@@ -1,4 +1,197 @@
-(* C02 -- placeholder while the harness is brought up; replaced below. *)
-From PyRTL Require Import Sim.FastModel Sim.CLimb.
-Example C02_stub : nlimbs 65 = 2%nat.
+(* C02 -- FastSimulation and CompiledSimulation are observably identical to Simulation.
+   Only statements + `exact`; the proofs live in Sim/FastModelProofs.v and Sim/CLimbProofs.v.
+   All three simulators are related to the same reference semantics (Netlist/Sem.v), to which
+   C01 relates pyrtl.Simulation.
+
+   Models: Sim/FastModel.v (the Python statements FastSimulation._compiled emits, on Python ints),
+           Sim/CLimb.v    (the C statements CompiledSimulation._build_* emit, on 64-bit limbs).
+   Regenerated from /repo on every run: Gen/FastMask.v (_no_mask_bitwidth), Gen/FastOps.v
+   (the emitted expression texts, plain and under `mask &`), Gen/CHelpers.v (_limbs, _makemask,
+   _getarglimb, the order of the loop tests of _build_concat). *)
+From PyRTL Require Import Sim.FastModel Sim.FastModelProofs Sim.SimCorrect.
+From PyRTL Require Import Sim.CLimb Sim.CLimbProofs.
+
+(* ======================= translated fragments ======================================= *)
+
+(* Whenever FastSimulation elides the mask (dest width = _no_mask_bitwidth[op](net)), the
+   unmasked Python-int expression is already in [0, 2^destwidth), for every argument value
+   in range: '+' at max+1, '*' at the sum of the widths, concat at the sum, select at the
+   number of indices, comparisons at 1 bit, ...  A mutated table entry breaks this proof. *)
+Theorem fast_mask_elision_sound : forall o args wd e,
+  fast_args_ok o args -> 0 <= wd ->
+  fast_elides o (map snd args) wd = true ->
+  fast_pyexpr o args = Some e ->
+  inrange e wd.
+Proof. exact fast_mask_elision_sound_lemma. Qed.
+Print Assumptions fast_mask_elision_sound.
+
+(* _limbs w = ceil(w / 64) *)
+Theorem limbs_spec : forall w, 64 * (c_limbs w - 1) < w <= 64 * c_limbs w.
+Proof. exact limbs_spec_lemma. Qed.
+Print Assumptions limbs_spec.
+
+(* ======================= FastSimulation ============================================== *)
+
+(* One cycle: every declared wire has exactly the reference value and lies in [0, 2^bitwidth);
+   the successor states (new `regs`, memories after the postponed writes) stay related. *)
+Theorem C02_fast_step_refines_spec : forall nl dflt st fs ins,
+  wfb nl = true -> fast_wfb nl = true ->
+  RF dflt st fs -> legal_ins nl ins -> legal_regs nl (sregs st) ->
+  let '(v, st') := step nl dflt st ins in
+  let '(v', fs') := fast_step nl dflt fs ins in
+  (forall x, In x (wires nl) ->
+     v' (wname x) = v (wname x) /\ inrange (v' (wname x)) (width_of nl (wname x)))
+  /\ RF dflt st' fs' /\ legal_regs nl (sregs st').
+Proof. exact fast_step_refines_wf. Qed.
+Print Assumptions C02_fast_step_refines_spec.
+
+(* Every cycle of every legal input sequence from every legal initial state. *)
+Theorem C02_fast_refines_spec : forall nl dflt regmap memmap inss,
+  wfb nl = true -> fast_wfb nl = true ->
+  legal_init nl dflt regmap -> Forall (legal_ins nl) inss ->
+  Forall2 (wires_agree nl)
+    (fst (run nl dflt (init_state nl dflt regmap memmap) inss))
+    (fst (fast_run nl dflt (fast_init nl dflt regmap memmap) inss)).
+Proof. exact fast_refines_spec. Qed.
+Print Assumptions C02_fast_refines_spec.
+
+(* fast_wfb excludes mux / concat / select nets whose destination is narrower than the natural
+   result.  The exclusion is necessary: the statement is false of the faithful model without it
+   (the code emits `dest = mask & <unparenthesised expr>`). *)
+Theorem C02_fast_truncating_refuted :
+  exists nl dflt ins,
+    wfb nl = true /\ legal_ins nl ins
+    /\ fst (fast_step nl dflt (fast_init nl dflt [] []) ins) 4
+       <> fst (step nl dflt (init_state nl dflt [] []) ins) 4.
+Proof. exact fast_truncating_refuted_lemma. Qed.
+Print Assumptions C02_fast_truncating_refuted.
+
+(* ======================= CompiledSimulation: per-builder, every limb count ============== *)
+
+Theorem C02_c_wire_correct : forall wa a wd,
+  limbs_ok wa a -> 0 <= wd <= wa ->
+  limbs_ok wd (c_wire wa a wd) /\ limbs_to_Z (c_wire wa a wd) = limbs_to_Z a mod 2 ^ wd.
+Proof. exact c_wire_correct. Qed.
+Print Assumptions C02_c_wire_correct.
+
+Theorem C02_c_not_correct : forall wa a wd,
+  limbs_ok wa a -> 0 <= wd <= wa ->
+  limbs_ok wd (c_not a wd)
+  /\ limbs_to_Z (c_not a wd) = (2 ^ wa - 1 - limbs_to_Z a) mod 2 ^ wd.
+Proof. exact c_not_correct. Qed.
+Print Assumptions C02_c_not_correct.
+
+Theorem C02_c_bitwise_correct : forall f wa a wb b wd,
+  is_bitwise f -> 0 <= wa -> 0 <= wb -> limbs_ok wa a -> limbs_ok wb b -> 0 <= wd ->
+  limbs_ok wd (c_bitwise f wa a wb b wd)
+  /\ limbs_to_Z (c_bitwise f wa a wb b wd) = f (limbs_to_Z a) (limbs_to_Z b) mod 2 ^ wd.
+Proof. exact c_bitwise_correct. Qed.
+Print Assumptions C02_c_bitwise_correct.
+
+Theorem C02_c_nand_correct : forall wa a wb b wd,
+  0 <= wa -> 0 <= wb -> limbs_ok wa a -> limbs_ok wb b -> 0 <= wd <= Z.max wa wb ->
+  limbs_ok wd (c_nand wa a wb b wd)
+  /\ limbs_to_Z (c_nand wa a wb b wd)
+     = (2 ^ Z.max wa wb - 1 - Z.land (limbs_to_Z a) (limbs_to_Z b)) mod 2 ^ wd.
+Proof. exact c_nand_correct. Qed.
+Print Assumptions C02_c_nand_correct.
+
+(* carry chain, by induction on the limbs *)
+Theorem C02_c_add_correct : forall wa a wb b wd,
+  0 <= wa -> 0 <= wb -> limbs_ok wa a -> limbs_ok wb b -> 0 <= wd ->
+  limbs_ok wd (c_add wa a wb b wd)
+  /\ limbs_to_Z (c_add wa a wb b wd) = (limbs_to_Z a + limbs_to_Z b) mod 2 ^ wd.
+Proof. exact c_add_correct. Qed.
+Print Assumptions C02_c_add_correct.
+
+(* borrow chain *)
+Theorem C02_c_sub_correct : forall wa a wb b wd,
+  0 <= wa -> 0 <= wb -> limbs_ok wa a -> limbs_ok wb b -> 0 <= wd ->
+  limbs_ok wd (c_sub wa a wb b wd)
+  /\ limbs_to_Z (c_sub wa a wb b wd) = (limbs_to_Z a - limbs_to_Z b) mod 2 ^ wd.
+Proof. exact c_sub_correct. Qed.
+Print Assumptions C02_c_sub_correct.
+
+Theorem C02_c_eq_correct : forall wa a wb b,
+  0 <= wa -> 0 <= wb -> limbs_ok wa a -> limbs_ok wb b ->
+  limbs_to_Z (c_eq wa a wb b) = b2z (limbs_to_Z a =? limbs_to_Z b).
+Proof. exact c_eq_correct. Qed.
+Print Assumptions C02_c_eq_correct.
+
+Theorem C02_c_lt_correct : forall wa a wb b,
+  0 <= wa -> 0 <= wb -> limbs_ok wa a -> limbs_ok wb b ->
+  limbs_to_Z (c_cmp Z.ltb wa a wb b) = b2z (limbs_to_Z a <? limbs_to_Z b).
+Proof. exact c_lt_correct. Qed.
+Print Assumptions C02_c_lt_correct.
+
+Theorem C02_c_gt_correct : forall wa a wb b,
+  0 <= wa -> 0 <= wb -> limbs_ok wa a -> limbs_ok wb b ->
+  limbs_to_Z (c_cmp Z.gtb wa a wb b) = b2z (limbs_to_Z a >? limbs_to_Z b).
+Proof. exact c_gt_correct. Qed.
+Print Assumptions C02_c_gt_correct.
+
+Theorem C02_c_mux_correct : forall s wf f wt t wd,
+  limbs_ok 1 s -> limbs_ok wf f -> limbs_ok wt t -> 0 <= wd <= wf -> wd <= wt ->
+  limbs_ok wd (c_mux s wf f wt t wd)
+  /\ limbs_to_Z (c_mux s wf f wt t wd)
+     = (if limbs_to_Z s =? 0 then limbs_to_Z f else limbs_to_Z t) mod 2 ^ wd.
+Proof. exact c_mux_correct. Qed.
+Print Assumptions C02_c_mux_correct.
+
+(* one term per destination bit; indices as sanity_check_net guarantees them *)
+Theorem C02_c_select_correct : forall w src idx wd,
+  0 <= w -> limbs_ok w src -> (forall b, In b idx -> 0 <= b < w) ->
+  0 <= wd <= Z.of_nat (length idx) ->
+  limbs_ok wd (c_select src idx wd)
+  /\ limbs_to_Z (c_select src idx wd) = select_spec (limbs_to_Z src) idx mod 2 ^ wd.
+Proof. exact c_select_correct. Qed.
+Print Assumptions C02_c_select_correct.
+
+(* run(): unpack (pack v n) = v *)
+Theorem C02_input_packing_roundtrip : forall n v,
+  0 <= v < 2 ^ (64 * Z.of_nat n) -> c_unpack (c_pack n v) = v.
+Proof. exact c_pack_roundtrip. Qed.
+Print Assumptions C02_input_packing_roundtrip.
+
+(* a packed input is a well-formed limb array holding the value *)
+Theorem C02_input_packing_ok : forall w v, 0 <= w -> 0 <= v < 2 ^ w ->
+  limbs_ok w (c_pack (nlimbs w) v) /\ limbs_to_Z (c_pack (nlimbs w) v) = v.
+Proof. exact c_pack_ok. Qed.
+Print Assumptions C02_input_packing_ok.
+
+(* ======================= non-vacuity =================================================== *)
+
+(* a design with a register, a memory, a truncating subtract, a 70-bit add, a concat and a
+   select satisfies wfb and fast_wfb; Fast model and reference semantics give the same trace *)
+Definition ex_nl : netlist :=
+  {| wires := [ mkWire 1 70 KInput; mkWire 2 70 (KReg (Some 5)); mkWire 3 3 KWire;
+                mkWire 4 71 KWire; mkWire 5 74 KWire; mkWire 6 2 KOutput;
+                mkWire 7 1 (KConst 1); mkWire 8 3 KWire; mkWire 9 3 KWire ];
+     nets := [ mkNet OpSub [1; 2] 3; mkNet OpAdd [1; 2] 4; mkNet OpConcat [3; 4] 5;
+               mkNet (OpSelect [73; 0]) [5] 6; mkNet (OpMemRd 0) [3] 8;
+               mkNet (OpSelect [0; 1; 2]) [4] 9;
+               mkNet (OpMemWr 0) [3; 9; 7] 0; mkNet OpReg [4] 2 ];
+     mems := [ mkMem 0 3 3 None ] |}.
+
+Example C02_example_wf : wfb ex_nl = true /\ fast_wfb ex_nl = true.
+Proof. vm_compute. split; reflexivity. Qed.
+
+Definition ex_ins : list (wid -> Z) :=
+  [ (fun _ => 2 ^ 69 + 3); (fun _ => 7); (fun _ => 2 ^ 70 - 1) ].
+
+Definition ex_probe (vs : list (wid -> Z)) : list (list Z) :=
+  map (fun v => map v [1; 2; 3; 4; 5; 6; 8; 9]) vs.
+
+Example C02_example_trace :
+  ex_probe (fst (fast_run ex_nl 0 (fast_init ex_nl 0 [] []) ex_ins))
+  = ex_probe (fst (run ex_nl 0 (init_state ex_nl 0 [] []) ex_ins)).
 Proof. vm_compute. reflexivity. Qed.
+
+(* limb arrays: 130-bit operands, 3 limbs each *)
+Example C02_example_limbs :
+  let a := c_pack (nlimbs 130) (2 ^ 129 + 2 ^ 64 - 1) in
+  let b := c_pack (nlimbs 130) (2 ^ 128 + 1) in
+  limbs_to_Z (c_add 130 a 130 b 131) = 2 ^ 129 + 2 ^ 64 - 1 + (2 ^ 128 + 1)
+  /\ limbs_to_Z (c_sub 130 b 130 a 131) = (2 ^ 128 + 1 - (2 ^ 129 + 2 ^ 64 - 1)) mod 2 ^ 131
+  /\ limbs_to_Z (c_cmp Z.ltb 130 b 130 a) = 1.
+Proof. vm_compute. repeat split; reflexivity. Qed.
